@@ -90,6 +90,8 @@ def ell_vars(t, b):
         return [v for x in t for v in ell_vars(x, b)]
     if isinstance(t, Vec):
         return [v for x in t.items for v in ell_vars(x, b)]
+    if isinstance(t, Dot):
+        return [v for x in t.items for v in ell_vars(x, b)] + ell_vars(t.tail, b)
     return []
 
 
